@@ -90,6 +90,9 @@ func (i *interpreter) resolveIntercept(fn *ssa.Function) interceptFn {
 	if nf, ok := natives[name]; ok {
 		return nativeCall(nf)
 	}
+	if f := deepCopyIntercept(fn); f != nil {
+		return f
+	}
 	return nil
 }
 
@@ -1121,4 +1124,116 @@ func isEmptyJSON(v value) bool {
 		return isZeroInt(v)
 	}
 	return false
+}
+
+// ---- generated deep copies of dependency API types
+
+// deepCopyIntercept recognises the generated DeepCopy/DeepCopyInto methods of
+// k8s.io/api and k8s.io/apimachinery types and implements them structurally
+// (same result as the generated code: nil-preserving copies of pointers,
+// slices and maps, field-wise copies of structs). The repository's own
+// generated deep copies are interpreted from source.
+func deepCopyIntercept(fn *ssa.Function) interceptFn {
+	if fn.Pkg == nil || fn.Signature.Recv() == nil {
+		return nil
+	}
+	path := fn.Pkg.Pkg.Path()
+	if !strings.HasPrefix(path, "k8s.io/api/") && !strings.HasPrefix(path, "k8s.io/apimachinery/pkg/apis/meta/v1") &&
+		path != "k8s.io/apimachinery/pkg/runtime" && path != "k8s.io/apimachinery/pkg/api/resource" && path != "k8s.io/apimachinery/pkg/util/intstr" {
+		return nil
+	}
+	pt, ok := fn.Signature.Recv().Type().(*types.Pointer)
+	if !ok {
+		return nil
+	}
+	elem := pt.Elem()
+	switch fn.Name() {
+	case "DeepCopyInto":
+		if fn.Signature.Params().Len() != 1 {
+			return nil
+		}
+		return func(caller *frame, _ *ssa.Function, args []value) value {
+			in, out := args[0].(*value), args[1].(*value)
+			if in == nil || out == nil {
+				caller.i.nilDeref()
+			}
+			caller.i.checkFrozen(out)
+			store(elem, out, caller.i.deepCopyValue(elem, *in))
+			return nil
+		}
+	case "DeepCopy":
+		if fn.Signature.Params().Len() != 0 || fn.Signature.Results().Len() != 1 {
+			return nil
+		}
+		if _, ok := fn.Signature.Results().At(0).Type().(*types.Pointer); !ok {
+			return nil
+		}
+		return func(caller *frame, _ *ssa.Function, args []value) value {
+			in := args[0].(*value)
+			if in == nil {
+				return (*value)(nil)
+			}
+			c := caller.i.deepCopyValue(elem, *in)
+			return &c
+		}
+	}
+	return nil
+}
+
+func (i *interpreter) deepCopyValue(t types.Type, v value) value {
+	if n, ok := t.(*types.Named); ok && n.Obj().Pkg() != nil && n.Obj().Pkg().Path() == "time" && n.Obj().Name() == "Time" {
+		return load(t, &v)
+	}
+	switch u := t.Underlying().(type) {
+	case *types.Basic, *types.Signature, *types.Chan:
+		return v
+	case *types.Pointer:
+		p := v.(*value)
+		if p == nil {
+			return p
+		}
+		c := i.deepCopyValue(u.Elem(), *p)
+		return &c
+	case *types.Struct:
+		s := v.(structure)
+		out := make(structure, len(s))
+		for k := range s {
+			out[k] = i.deepCopyValue(u.Field(k).Type(), s[k])
+		}
+		return out
+	case *types.Array:
+		a := v.(array)
+		out := make(array, len(a))
+		for k := range a {
+			out[k] = i.deepCopyValue(u.Elem(), a[k])
+		}
+		return out
+	case *types.Slice:
+		s := v.([]value)
+		if s == nil {
+			return s
+		}
+		out := make([]value, len(s))
+		for k := range s {
+			out[k] = i.deepCopyValue(u.Elem(), s[k])
+		}
+		return out
+	case *types.Map:
+		m := v.(*omap)
+		if m == nil {
+			return m
+		}
+		out := newOmap()
+		for k := range m.keys {
+			out.appendEntry(m.keys[k], i.deepCopyValue(u.Elem(), m.vals[k]))
+		}
+		return out
+	case *types.Interface:
+		it := v.(iface)
+		if it.t == nil {
+			return it
+		}
+		return iface{it.t, i.deepCopyValue(it.t, it.v)}
+	}
+	panic(engineTrap{msg: "deepCopyValue: unsupported type " + t.String()})
 }
